@@ -22,6 +22,7 @@ type Node struct {
 	N        string      `json:"n,omitempty"`
 	B        bool        `json:"b,omitempty"`
 	Q        int64       `json:"q,omitempty"`
+	V        int         `json:"v,omitempty"` // syntaxerror: which unparseable source
 	Txt      string      `json:"txt,omitempty"` // number literal spelled explicitly (lexer-level families)
 	S        Bytes       `json:"s,omitempty"`
 	Quote    string      `json:"quote,omitempty"`
@@ -170,7 +171,8 @@ func (u *unparser) stmt(n *Node) error {
 	case "text":
 		u.buf.Write(n.D)
 	case "syntaxerror":
-		u.w("{% if %}") // a template that loads but does not parse
+		// a template that loads but does not parse
+		u.w(badSources[n.V%len(badSources)])
 	case "comment":
 		u.w("{#")
 		u.buf.Write(n.D)
@@ -731,6 +733,14 @@ func (u *unparser) expr(n *Node) error {
 }
 
 // Unparse spells a template (a list of statements) as source text.
+// sources that no parser of the language accepts (spec: [k |-> "syntaxerror", v |-> index])
+var badSources = []string{
+	"{% if %}", "{% for 1 in xs %}x{% endfor %}", "{% for k, 2 in xs %}{% endfor %}", "{% for v in xs foo %}{% endfor %}", "{{ a is 3 }}",
+	"{{ 'unclosed }}", "{% block b %}unclosed", "{% nosuchtag %}", "{{ a b }}", "{% set %}", "{% macro m( %}{% endmacro %}",
+	"{% include %}", "{{ }}", "x{% endif %}", "{% extends 'a' %}{% extends 'b' %}", "{{ a ? b }}", "{{ [1, }}", "{# unclosed",
+	"{% if a %}{% else %}{% else %}{% endif %}x{% endfor %}", "{{ a.(b) }}", "{% from 'lib' import %}{{ 1 + }}",
+}
+
 func Unparse(stmts []Node, sp Spelling) ([]byte, error) {
 	u := &unparser{sp: sp, rng: uint64(sp.Seed)*2654435761 + 12345}
 	if err := u.stmts(stmts); err != nil {
